@@ -443,8 +443,62 @@ def r8_environment_sees_everything(ctx):
     c04.r7_actions_forwarded(ctx, "R-C14-8")
 
 
+def r9_completions_and_ids(ctx):
+    R = "R-C14-9"
+    ctx.rule(R, "(a) every effect completion reaches its process THROUGH the ownership registration: Command::EffectCompletion is constructed only in "
+                "Environment::handle_effect_completion (which records a created handle for its owner first) and report_effect_error (errors carry no "
+                "handle) — a delivery path that skips the registration (e.g. for completions drained from the backend asynchronously) leaves sockets "
+                "created by tcp_connect / accept without an owner; (b) resource ids are minted from a monotone counter: every key inserted into the "
+                "native backend's registry derives from next_resource_id, which is only ever incremented — a recycled id can be handed out twice")
+    F = ctx.facts
+    allowed = {ENV + "::handle_effect_completion", ENV + "::report_effect_error"}
+    n = 0
+    for body in F.bodies(crate="quiver_environment"):
+        if body.fn.get("derived") or "_serde" in body.key or "Clone" in body.key:
+            continue
+        for bi, si, st in agg_sites(body, "messages::Command", "EffectCompletion"):
+            n += 1
+            base = body.key.split("::{closure")[0]
+            ctx.check(base in allowed, R, "%s|construct EffectCompletion" % base, "constructed behind the ownership registration",
+                      "Command::EffectCompletion is constructed outside handle_effect_completion / report_effect_error: a completion can reach its process "
+                      "without the created handle being recorded for its owner (never closed at termination, usable by whoever receives it)", body.loc(bi, si))
+    ctx.floor(R, "EffectCompletion constructions", n, 2)
+    # (b) ids
+    writes = 0
+    for body in F.bodies(crate="quiver_io"):
+        fl = Flow(body, through_named=True)
+        for bi, si, st in body.stmts():
+            if st["k"] == "assign" and any(e[0] == "f" and e[1] == "next_resource_id" for e in st["p"]["pr"]):
+                writes += 1
+                pl = op_place(st["rv"].get("op") or {}) if st["rv"]["k"] == "use" else None
+                srcs = fl.sources(pl["l"]) if pl else []
+                inc = any(x[0] == "rv" and x[2]["rv"]["k"] == "bin" and x[2]["rv"]["op"].startswith("Add") and
+                          ((x[2]["rv"]["r"].get("val") == 1) or (x[2]["rv"]["l"].get("val") == 1)) and "next_resource_id" in json_text(x[2]["rv"]) for x in srcs)
+                is_init = body.key.endswith("::new") or "Default" in body.key
+                ctx.check(inc or is_init, R, "%s|next_resource_id=" % body.key.split("::{closure")[0], "next_resource_id = next_resource_id + 1",
+                          "next_resource_id is written with something other than its own increment (ids can repeat)", body.loc(bi, si))
+        for bi, t in body.calls():
+            c = t.get("callee") or ""
+            if c.split("::")[-1] == "insert" and t["args"] and len(t["args"]) > 2:
+                cp = Flow(body).canon_op(t["args"][0])
+                if cp and fl.mentions_field(cp, "NativeEffectBackend", "resources"):
+                    kp = op_place(t["args"][1])
+                    fields = fl.slice_reads(kp["l"])[0] if kp else set()
+                    callees = fl.slice_reads(kp["l"])[3] if kp else set()
+                    ok = any(f == "next_resource_id" for _o, f in fields) and not any(c2.split("::")[-1] in ("pop", "pop_front", "remove", "swap_remove", "take", "iter", "next") for c2 in callees)
+                    ctx.check(ok, R, "%s|registry key" % body.key.split("::{closure")[0], "the id registered is the current value of the monotone counter",
+                              "a resource is registered under an id that does not come (only) from the monotone counter (%s): a recycled id can be live twice — "
+                              "registering the second closes / aliases the first owner's resource" % sorted(c2.split("::")[-1] for c2 in callees), body.loc(bi))
+    ctx.floor(R, "writes of next_resource_id", writes, 3)
+
+
+def json_text(o):
+    import json as _j
+    return _j.dumps(o)
+
+
 def run(ctx):
-    ctx.run_rules([r1_ownership_dominates_execute, r2_who_writes_ownership, r3_close, r4_classification, r5_creations_top_level, r6_transfer_before_forward, r7_cleanup_reach, r8_environment_sees_everything])
+    ctx.run_rules([r1_ownership_dominates_execute, r2_who_writes_ownership, r3_close, r4_classification, r5_creations_top_level, r6_transfer_before_forward, r7_cleanup_reach, r8_environment_sees_everything, r9_completions_and_ids])
     return (
         "Decides structural clauses: the ownership test guards the only backend execute call (path-wise, with the violating edge reported); "
         "the ownership map has exactly three reviewed writers; close_resource has one caller, is followed by removal, and runs only for "
